@@ -1,6 +1,7 @@
 """implementation side: harness runs, monitors, correspondence with the model (DESIGN.md 3.6/3.7)"""
 import os, re, json, time
 from common import *
+from common import run as sh_run
 import hrun
 
 # which monitor verdicts speak about which property (prefix match)
@@ -55,11 +56,11 @@ def is_leak_free_stream(line):
             return False
     return True
 
-def judge(pid, line, res):
+def judge(pid, line, res, expected_abort=False):
     """verdicts of the implementation-side monitors for one executed history"""
     v = []
     h = hrun.header(line)
-    if res["fate"] != "done":
+    if res["fate"] != "done" and not (expected_abort and res["fate"] == "signal 6"):
         kind = "hang" if res["fate"] == "timeout" else "crash"
         if relevant(pid, kind):
             v.append("%s:%s" % (kind, res["fate"]))
@@ -124,7 +125,93 @@ def with_prof(line, prof):
     toks = [x for x in hdr.split() if not x.startswith("prof=")]
     return "H %s.%s %s prof=%s ::%s" % (t[1], prof, " ".join(toks), prof, body)
 
+def run_sizes(ctx, P, cs):
+    """C13: rustc's answer for size_of / align_of of MiniVec<T> and Option<MiniVec<T>> over a table of types"""
+    b, log_ = hrun.build("d")
+    if not b:
+        return {"violations": [{"tag": "harness_build", "kind": "harness does not build against /repo", "detail": log_[:3000], "classes": []}], "coverage": {}}
+    rc, out = sh_run([b, "sizes"], timeout=60)
+    rows, viol = [], []
+    for l in out.splitlines():
+        m = re.match(r"SIZE (.+) elem=(\d+):(\d+) vec=(\d+):(\d+) opt=(\d+):(\d+)$", l)
+        if m:
+            rows.append(l)
+            if (m.group(4), m.group(5), m.group(6), m.group(7)) != ("8", "8", "8", "8"):
+                viol.append({"tag": "size_" + re.sub(r"\W", "_", m.group(1)), "kind": "MiniVec<T> is not one pointer wide / Option adds space",
+                             "row": l, "classes": [], "replay_cmd": "%s sizes" % b})
+    if len(rows) < 30:
+        viol.append({"tag": "sizes_missing", "kind": "size table incomplete", "detail": out[-1000:], "classes": []})
+    cov = {"evaluations": len(rows), "distinct_nontrivial": len(rows), "traces_validated_against_impl": len(rows),
+           "rule": "one row per element type (owning, borrowing, fat-pointer, over-aligned, large): size_of/align_of of MiniVec<T> and Option<MiniVec<T>> as rustc lays them out, compared with the model's answer 8/8/8/8",
+           "samples": rows[:4] + rows[-2:]}
+    return {"violations": viol, "coverage": cov}
+
+def run_rustc(ctx, P, cs):
+    """C16: the corpus of must-not-compile programs and their must-compile twins against the current crate"""
+    d = os.path.join(CACHE, "c16")
+    os.makedirs(d, exist_ok=True)
+    rlib = os.path.join(d, "libminivec.rlib")
+    rc, out = sh_run(["rustc", "--edition", "2018", "--crate-type", "rlib", "--crate-name", "minivec",
+                   os.path.join(REPO, "src", "lib.rs"), "-o", rlib, "-A", "warnings"], timeout=300)
+    if rc != 0:
+        return {"violations": [{"tag": "crate_build", "kind": "the crate does not compile", "detail": out[-2000:], "classes": []}], "coverage": {}}
+    progs = sorted(f for f in os.listdir(os.path.join(VERIF, "corpus", "c16")) if f.endswith(".rs"))
+    viol, rows = [], []
+    import concurrent.futures
+    def one(f):
+        path = os.path.join(VERIF, "corpus", "c16", f)
+        head = open(path).readline().strip()
+        exp = head.replace("// expect:", "").split()
+        rc, out = sh_run(["rustc", "--edition", "2021", "--extern", "minivec=" + rlib, "--emit=metadata", "-o",
+                       os.path.join(d, f + ".rmeta"), path, "--error-format=short", "-A", "warnings"], timeout=120)
+        codes = sorted(set(re.findall(r"E\d{4}", out)))
+        return f, exp, rc, codes, out
+    with concurrent.futures.ThreadPoolExecutor(max_workers=NCPU) as ex:
+        for f, exp, rc, codes, out in ex.map(one, progs):
+            ok = (exp[0] == "pass" and rc == 0) or (exp[0] == "fail" and rc != 0 and (len(exp) < 2 or exp[1] == "lifetime" or exp[1] in codes))
+            rows.append("%s expect=%s observed=%s %s" % (f, " ".join(exp), "accepted" if rc == 0 else "rejected", " ".join(codes)))
+            if not ok:
+                viol.append({"tag": "rustc_" + f.replace(".rs", ""), "kind": "rustc's verdict differs from the expected one",
+                             "program": f, "expected": exp, "observed": "accepted" if rc == 0 else "rejected " + " ".join(codes),
+                             "rustc": out[-1500:], "classes": [],
+                             "replay_cmd": "rustc --edition 2021 --extern minivec=%s --emit=metadata corpus/c16/%s" % (rlib, f)})
+    cov = {"evaluations": len(progs), "distinct_nontrivial": len(progs), "traces_validated_against_impl": len(progs),
+           "rule": "one must-not-compile program per borrowing / lifetime / auto-trait rule per API, each paired with a must-compile twin; compiled by rustc against the crate built from /repo's working tree; expected verdict and error code in the first line of each program",
+           "samples": rows[:3] + rows[-3:], "verdicts": rows}
+    return {"violations": viol, "coverage": cov}
+
+def run_serde(ctx, P, cs):
+    """C19: serialization / deserialization on the real crate with scripted SeqAccess (hints, errors)"""
+    b, log_ = hrun.build("d")
+    br, log2 = hrun.build("r")
+    if not b or not br:
+        return {"violations": [{"tag": "harness_build", "kind": "harness does not build against /repo", "detail": (log_ or log2)[:3000], "classes": []}], "coverage": {}}
+    viol, total, samples = [], 0, []
+    for prof, binp in (("d", b), ("r", br)):
+        rc, out = sh_run([binp, "serde"], timeout=300)
+        m = re.search(r"SERDE cases=(\d+) bad=(\d+)", out)
+        lines = out.splitlines()
+        samples += lines[:2] + [l for l in lines if l.startswith("DE ")][:2]
+        if not m:
+            viol.append({"tag": "serde_crash_" + prof, "kind": "the serde probe did not complete", "detail": out[-1500:], "rc": rc, "classes": [], "replay_cmd": "%s serde" % binp})
+            continue
+        total += int(m.group(1))
+        if int(m.group(2)) > 0:
+            badl = [l for l in lines if ("ok=false" in l or "exact=false" in l or "bounded=false" in l or l.startswith("ERR ") or l.startswith("INPLACE "))]
+            viol.append({"tag": "serde_" + prof, "kind": "serde round trip / bounded reservation / error validity fails", "profile": prof,
+                         "cases": badl[:10], "classes": [], "replay_cmd": "%s serde" % binp})
+    cov = {"evaluations": total, "distinct_nontrivial": total, "traces_validated_against_impl": total,
+           "rule": "6 element sequences (0..2049 elements) x 9 claimed size hints (absent, exact, small, 1024, 1025, 10^5, usize::MAX) x prior contents shorter/equal/longer x two capacities, plus an element error at every position up to 12; serialization compared with the slice's and Vec's JSON; both profiles",
+           "samples": samples[:6]}
+    return {"violations": viol, "coverage": cov}
+
 def run(ctx, P, cs):
+    if P.get("impl") == "sizes":
+        return run_sizes(ctx, P, cs)
+    if P.get("impl") == "rustc":
+        return run_rustc(ctx, P, cs)
+    if P.get("impl") == "serde":
+        return run_serde(ctx, P, cs)
     pid = ctx.pid
     t0 = time.time()
     viol, cov = [], {}
@@ -191,7 +278,8 @@ def run(ctx, P, cs):
                 out_hist[pp["out"]] = out_hist.get(pp["out"], 0) + 1
         if len(opsn) >= 2:
             nontrivial.add(body.strip() + "|" + hrun.header(l).get("cls", "") + prof)
-        vs = judge(pid, l, res)
+        fo_ = model.fatal_outcome(mtr.get(hrun.hid(pl), [])) or ""
+        vs = judge(pid, l, res, expected_abort=fo_.startswith(("abort", "allocabort")))
         classes = sorted(finding_class(pid, l))
         mm = None
         if mbin and hrun.hid(pl) in mtr:
